@@ -6,12 +6,16 @@
    C06_structure: every line is its pieces (words or hyphen-ended chunks of an over-long
    word) joined by single U+0020, no piece is empty or holds a space cluster - so no line is
    empty or starts or ends with a space - and breaking is greedy: a line that is not full is
-   followed by a piece that would not have fitted on it. Hyphenation only of over-long words,
-   idempotence and the trailing separator are judged on every generated case by the
-   executable checker check_C06 and the wrap-twice cases. *)
+   followed by a piece that would not have fitted on it; a word is cut (cov) only when it is
+   longer than the width; the greedy partition is unique (C06_greedy_unique), hence wrapping
+   text whose collapsed form is the pieces of an earlier wrap joined by single spaces gives
+   the same lines again (C06_wrap_again). That re-joining the lines with the line separator
+   and collapsing yields exactly that form depends on the separator (self-overlapping
+   separators), and, like the trailing separator, is judged on every generated case by
+   check_C06 and the wrap-twice cases. *)
 From Coq Require Import List Bool ZArith Lia.
 Import ListNotations.
-From Rosed Require Import Base.Res Base.ListX Gem.Segment Gem.GString Model.Tb Model.Manip Model.Table Base.Str Proofs.SeamP Proofs.C13P Proofs.C06P Proofs.C06Q Proofs.C06R.
+From Rosed Require Import Base.Res Base.ListX Gem.Segment Gem.GString Model.Tb Model.Manip Model.Table Base.Str Proofs.SeamP Proofs.C13P Proofs.C06P Proofs.C06Q Proofs.C06R Proofs.C06S.
 Open Scope Z_scope.
 
 Theorem C06_clamp : forall (C : Classifier) text w sep, wrap text w sep = wrap text (Z.max w 2) sep.
@@ -46,6 +50,23 @@ Print Assumptions C06_width.
 Theorem C06_structure : forall (C : Classifier) (K : ClassifierOk) (U : Upper) text w sep ct b,
   collapse_space text sep = Ok ct -> all_safe ct -> ct <> [] -> wrap text w sep = Ok b ->
   exists pss, b_lines b = map ln pss /\ Forall (lp_ok (Z.max w 2)) pss /\ chain (Z.max w 2) pss /\
-              cov (concat pss) (wds (clusters ct) []).
+              cov (Z.max w 2) (concat pss) (wds (clusters ct) []).
 Proof. intros C K U. exact wrap_structure. Qed.
 Print Assumptions C06_structure.
+
+(* two partitions of one piece sequence into lines that both respect the width and are both
+   greedy are the same partition *)
+Theorem C06_greedy_unique : forall (C : Classifier) (K : ClassifierOk) (U : Upper) W pss pss',
+  Forall (lp_ok W) pss -> Forall (lp_ok W) pss' -> chain W pss -> chain W pss' ->
+  concat pss = concat pss' -> pss = pss'.
+Proof. intros C K U. exact greedy_unique. Qed.
+Print Assumptions C06_greedy_unique.
+
+(* wrapping again: if text' collapses to the pieces of wrap(text) joined by single spaces, it
+   wraps to the same lines *)
+Theorem C06_wrap_again : forall (C : Classifier) (K : ClassifierOk) (U : Upper) text w sep ct b text',
+  collapse_space text sep = Ok ct -> all_safe ct -> ct <> [] -> wrap text w sep = Ok b -> b_lines b <> [] ->
+  (forall pss, b_lines b = map ln pss -> collapse_space text' sep = Ok (ln (concat pss))) ->
+  exists b', wrap text' w sep = Ok b' /\ b_lines b' = b_lines b.
+Proof. intros C K U. exact wrap_again. Qed.
+Print Assumptions C06_wrap_again.
